@@ -15,6 +15,8 @@ GEN_DIR = os.path.join(VERIF_ROOT, "gen")
 # messages that mean "the solver refuted / could not prove this obligation"
 FAIL_PATTERNS = [
     ("postcondition", re.compile(r"postcondition not satisfied")),
+    ("closure-postcondition", re.compile(r"unable to prove post-?condition of closure")),
+    ("closure-precondition", re.compile(r"unable to prove pre-?condition of closure|closure.*requires.*not satisfied")),
     ("precondition", re.compile(r"precondition not satisfied")),
     ("invariant-entry", re.compile(r"invariant not satisfied before loop")),
     ("invariant-preserved", re.compile(r"invariant not satisfied at end of loop body")),
